@@ -279,11 +279,15 @@ class Sched:
         self.trace.append(("run", vt.name, vt.wake_reason, self.now))
         if self.on_wake is not None and vt.state in ("blocked", "sleeping"):
             self.on_wake(vt, vt.wake_reason if vt.state == "blocked" else "slept")
+        was_sleeping = vt.state == "sleeping"
         self.current = vt
         vt.sem.release()
         self.main.sem.acquire()
         self.current = self.main
-        self.touch(but=vt)
+        # a poller that woke up, looked, and went straight back to sleep changed nothing: other pollers need not look again
+        # (two pollers would otherwise keep each other 'dirty' forever)
+        if not (was_sleeping and vt.state == "sleeping"):
+            self.touch(but=vt)
 
     def run_all(self, max_steps: int = 2000, until: Optional[float] = None) -> int:
         """Default schedule: repeatedly run the earliest enabled thread."""
